@@ -19,6 +19,10 @@
    (startParam <= i always holds, it is the index of an earlier byte) so truncated
    subtraction is exact; paramCnt cannot wrap because it is compared with
    maxParams <= 65535 right after each increment.
+   NOTE for importers: the record projections of [st] (state, previous, paramCnt, countStatic,
+   startParam, inParam, nonNumeric, partlen, totallen, last, delim) are top-level names; after
+   `Import ParseRoute`, [last] is this projection, write [List.last] for the list function.
+   Token.v and Grammar.v do not depend on this file.
    No proofs in this file. *)
 From FoxBase Require Import Bytes.
 Import List ListNotations.
